@@ -149,7 +149,7 @@ pub fn run(rep: &mut Rep) {
         .collect();
     let mut case = 0u64;
     for (cmd, name, s) in &cmds {
-        let n = rep.n(64, 6000);
+        let n = rep.n(64, 20_000);
         for i in 0..n * rep.nshards {
             case += 1;
             if !rep.mine(case) {
